@@ -248,6 +248,25 @@ Theorem C17_untar_refuses_outside_anywhere : forall c dir e rest pre f,
 Proof. exact untar_refuses_outside_anywhere. Qed.
 Print Assumptions C17_untar_refuses_outside_anywhere.
 
+(** The name that is checked is the name that is written.  For ANY rewriting
+    [rw] of the entry name between the containment test and the writing calls
+    (the deployed loop is [rw] = identity, [C17_unzip_is_rw_identity]): if the
+    rewritten name would pass the test whenever the raw one does, extraction
+    stays confined.  A separator translation after the test (backslash to
+    slash for entries stamped FAT / NTFS) does not have that property:
+    [C17_separator_translation_after_check_refuted]. *)
+Theorem C17_checked_name_is_written_name : forall rw c dir D es,
+  rw_safe dir rw ->
+  resolve (cwd c) (clean dir) = Some D ->
+  forall f, confined D f (snd (unzip_entries_rw rw c f dir es)).
+Proof. exact unzip_entries_rw_confined. Qed.
+Print Assumptions C17_checked_name_is_written_name.
+
+Theorem C17_unzip_is_rw_identity : forall c f dir e,
+  unzip_entry c f dir e = unzip_entry_rw (fun n => n) c f dir e.
+Proof. exact unzip_entry_is_rw_id. Qed.
+Print Assumptions C17_unzip_is_rw_identity.
+
 (** Not proved: the same with a directory prefix [S] handed to TarZipFile
     (the tree arrives under [D ++ S]; [D] and the directories of [S] are
     created with the root entry's mode).  [C17_tar_roundtrip] is the case
@@ -292,6 +311,16 @@ Theorem C17_containment_decided_per_entry :
   gen_check_cond_unzip = "!inDir(dir, name)"%string /\ gen_check_cond_untar = "!inDir(destDir, dest)"%string.
 Proof. exact arch_check_unconditional. Qed.
 Print Assumptions C17_containment_decided_per_entry.
+
+Theorem C17_checked_expression_is_used_expression :
+  gen_checked_expr_unzip = "name"%string /\ gen_checked_defs_unzip = ["filepath.Join(dir, f.Name)"%string] /\
+  all_in ["name"%string; "filepath.Dir(name)"%string] gen_write_paths_unzip = true /\
+  gen_checked_expr_untar = "dest"%string /\
+  gen_checked_defs_untar = ["filepath.Join(destDir, filepath.FromSlash(header.Name))"%string] /\
+  gen_dir_defs_untar = ["filepath.Dir(dest)"%string] /\
+  all_in ["dest"%string; "dir"%string] gen_write_paths_untar = true.
+Proof. exact arch_checked_is_used. Qed.
+Print Assumptions C17_checked_expression_is_used_expression.
 
 Theorem C17_callers_are_the_modelled_extractors :
   (only_writer "writeTarToDir" gen_calls_copyout = true /\ gen_dest_arg_copyout = gen_dest_param_copyout) /\
@@ -359,6 +388,23 @@ Example C17_memo_polluted_by_root_entry_refuted :
   fst (unzip_entries_memo c f (bs "/sb/dest") [] [up]) = XRefused /\
   unzip_entries c f (bs "/sb/dest") [root; up] = (XRefused, f) /\
   unzip_entries c f (bs "/sb/dest") [up] = (XRefused, f).
+Proof. vm_compute. repeat split. Qed.
+
+(** A separator translation AFTER the test (NOT the deployed code): the raw
+    name [..\evil.txt] is one harmless path element and passes; the translated
+    name is written one level above the destination.  The deployed loop writes
+    a file whose name contains a backslash, inside. *)
+Example C17_separator_translation_after_check_refuted :
+  let up := {| e_name := bs "..\evil.txt"; e_kind := KFile; e_perm := 420; e_data := bs "evil" |} in
+  in_dir (bs "/sb/dest") (filepath_join [bs "/sb/dest"; e_name up]) = true /\
+  in_dir (bs "/sb/dest") (filepath_join [bs "/sb/dest"; unbackslash (e_name up)]) = false /\
+  fst (unzip_entries_rw unbackslash ex_cfg ex_fs (bs "/sb/dest") [up]) = XOk /\
+  lookup (snd (unzip_entries_rw unbackslash ex_cfg ex_fs (bs "/sb/dest") [up])) [bs "sb"; bs "evil.txt"]
+    = Some (NFile 420 (bs "evil")) /\
+  lookup (snd (unzip_entries ex_cfg ex_fs (bs "/sb/dest") [up])) [bs "sb"; bs "evil.txt"]
+    = Some (NFile 384 (bs "pre-existing")) /\
+  lookup (snd (unzip_entries ex_cfg ex_fs (bs "/sb/dest") [up])) [bs "sb"; bs "dest"; bs "..\evil.txt"]
+    = Some (NFile 420 (bs "evil")).
 Proof. vm_compute. repeat split. Qed.
 
 Definition ex_tree : tree :=
